@@ -343,6 +343,7 @@ inductive Out (σ α : Type) where
   | num (n : Nat)
   | bool (b : Bool)
   | st (s : σ)
+deriving DecidableEq, Repr
 
 /-- slot-level callback obtained from an element-level one (never applied to a cleared slot in a
 well-formed ring; there it leaves everything unchanged) -/
